@@ -10,6 +10,21 @@ Open Scope nat_scope.
 
 Module C := Categorical.
 
+(* tie: the numbers and strings read from the three format classes are the ones the harness / the examples assume *)
+Lemma seg_skeleton_ok :
+  (seg_v4_slew_len_gt = 1%Z /\ seg_v4_slew_event_index = 1%Z /\ seg_v4_slew_event_value = 1%Z /\ seg_v4_slew_dump = 1%Z
+   /\ seg_v4_slew_value = "slew"%string /\ seg_v4_label_uv_gt = 1%Z /\ seg_v4_label_removed = ""%string /\ seg_v4_label_first_gt = 0%Z
+   /\ seg_v4_label_add_event = 0%Z /\ seg_v4_label_add_value = ""%string /\ seg_v4_stop_value = "stop"%string /\ seg_v4_stop_dump = 0%Z)
+  /\ (seg_v3_slew_len_gt = 1%Z /\ seg_v3_slew_event_index = 1%Z /\ seg_v3_slew_event_value = 1%Z /\ seg_v3_slew_dump = 1%Z
+   /\ seg_v3_slew_value = "slew"%string /\ seg_v3_label_uv_gt = 1%Z /\ seg_v3_label_removed = ""%string /\ seg_v3_label_first_gt = 0%Z
+   /\ seg_v3_label_add_event = 0%Z /\ seg_v3_label_add_value = ""%string /\ seg_v3_nothing_len_gt = 1%Z /\ seg_v3_nothing_dump = 0%Z
+   /\ seg_v3_nothing_value = "Nothing, special"%string)
+  /\ (seg_v2_slew_len_gt = 1%Z /\ seg_v2_slew_event_index = 1%Z /\ seg_v2_slew_event_value = 1%Z /\ seg_v2_slew_dump = 1%Z
+   /\ seg_v2_slew_value = "slew"%string /\ seg_v2_label_uv_gt = 1%Z /\ seg_v2_label_removed = ""%string /\ seg_v2_label_first_gt = 0%Z
+   /\ seg_v2_label_add_event = 0%Z /\ seg_v2_label_add_value = ""%string)
+  /\ k_dist (segk_of V4) = 1%nat.
+Proof. repeat split; reflexivity. Qed.
+
 Lemma nth_map_seq : forall n k, k < n -> nth k (map Z.of_nat (seq 0 n)) zd = Z.of_nat k.
 Proof.
   intros n k H. rewrite (nth_indep _ zd (Z.of_nat 0)) by (rewrite map_length, seq_length; exact H).
